@@ -231,6 +231,10 @@ class C11Spec(Spec):
         conf['journal'] = journal
         conf['commandsWaitLeader'] = True
         cfg['cap'] = rng.choice([1 << 16, 1 << 12, 1 << 20, 300])
+        if B < 64:
+            # one-byte chunks: an entry becomes hundreds of messages (tens of KiB on the wire, re-sent on every
+            # heartbeat); a 300-byte socket moves one buffer per tick in this engine and never catches up
+            cfg['cap'] = max(cfg['cap'], 1 << 12)
         cfg['plan'] = plan
         s['dlv_sizes'] = rng.choice([[0], [0, 0, 0, 64, 1000], [0, 0, 1, 7, 300]])
         s['steps'] = 1 << 30
